@@ -2,7 +2,7 @@
 from .. import tables
 from ..callgraph import norm
 from ..cfg import Cfg, reach
-from ..common import body_by_name, callee_names
+from ..common import body_by_name, callee_names, switch_atom
 from ..facts import callee, op_const, op_local, op_place
 from ..flow import Flow, identity_through
 from ..inline import inlined, same_impl_helpers
@@ -446,6 +446,33 @@ def disp_rule(rep, prog, cfg, fld):
             ct, cf = calls_in(tr - fr), calls_in(fr - tr)
             if B + "handle_start_field" in ct and B + "handle_song_field" in cf and B + "handle_song_field" not in ct \
                     and B + "handle_start_field" not in cf:
+                ok = True
+    if not ok:
+        # `url.len() == 0` / `!= 0` / `> 0` forms of the same test
+        from ..common import op_int
+        for bb in sorted(fld.reachable()):
+            a = switch_atom(fld, bb)
+            if a is None or a["kind"] != "cmp":
+                continue
+            k, x, op = op_int(fld, a["rhs"]), a["lhs"], a["op"]
+            if k is None:
+                k, x = op_int(fld, a["lhs"]), a["rhs"]
+                op = {"Lt": "Gt", "Gt": "Lt", "Le": "Ge", "Ge": "Le"}.get(op, op)
+            if k not in (0, 1) or op_local(x) is None:
+                continue
+            leaves, _ = Flow(fld).sources([op_local(x)], through_call=None, follow_mut=False)
+            if not any(lf[0] == "call" and any(n.endswith("::len") for n in callee_names(fld.blocks[lf[1]]["t"])) for lf in leaves):
+                continue
+            empty_t = ({"Eq": a["true"], "Ne": a["false"], "Gt": a["false"], "Le": a["true"]} if k == 0 else {"Lt": a["true"], "Ge": a["false"]}).get(op)
+            if empty_t is None:
+                continue
+            other_t = a["false"] if empty_t == a["true"] else a["true"]
+            succs = fld.succs()
+            tr = reach(succs, [empty_t], avoid=[other_t])
+            fr = reach(succs, [other_t], avoid=[empty_t])
+            ct = {n for b2 in tr - fr if fld.blocks[b2]["t"]["k"] == "call" for n in callee_names(fld.blocks[b2]["t"])}
+            cf = {n for b2 in fr - tr if fld.blocks[b2]["t"]["k"] == "call" for n in callee_names(fld.blocks[b2]["t"])}
+            if B + "handle_start_field" in ct and B + "handle_song_field" in cf and B + "handle_song_field" not in ct and B + "handle_start_field" not in cf:
                 ok = True
     rep.check(ok, "C14.boundary", cfg + "/field dispatch", fld.loc(fld.span),
               "SongBuilder::field does not dispatch 'no song in progress' (empty URL) to the start handler and everything else to the song handler")
